@@ -44,6 +44,7 @@ def main(tier):
     chk.rule("GUARD", "balance/version guards precede building and map to the right errors", floor=9)
     chk.rule("SUM", "value_balance sums all pools", floor=4)
     chk.rule("PS-1", "sibling pool code is a consistent renaming", floor=60)
+    chk.rule("PS-2", "Ironwood code equals its Orchard sibling up to the pool renaming", floor=10)
     chk.rule("PS-3", "pool counts reach the matching fee_required slots", floor=2)
     chk.rule("PS-4", "pool-generic helpers are not handed operands of two pools", floor=4)
     chk.rule("USE", "whoever inspects an Orchard-family builder's contents consults every list that "
@@ -51,6 +52,7 @@ def main(tier):
     chk.rule("SIGN", "the signed input is the one committed to", floor=5)
     chk.rule("control", "positive controls", floor=1)
     ps_rules.ps1(chk, FILES)
+    ps_rules.ps2(chk, FILES)
     w = zf.World(extract.facts_dir("all"), ["zcash_primitives", "zcash_transparent", "pczt"])
 
     def scope(f):
